@@ -29,7 +29,10 @@ HIER = {"classes": [
 ATOMS = [["cls", f"K{i}"] for i in range(7)] + [["obj"], ["cls", "int"], ["cls", "bool"], ["cls", "str"],
                                                   ["cls", "Number"], ["cls", "PA"], ["cls", "Sequence"],
                                                   # pairs of distinct types that are subclasses of each other
-                                                  ["cls", "PA2"], ["cls", "PLen"], ["cls", "Sized"]]
+                                                  ["cls", "PA2"], ["cls", "PLen"], ["cls", "Sized"], ["cls", "tuple"]]
+# generic aliases as they occur under type[...], in both spellings, including EMPTY argument lists
+RAW = [["raw", n] for n in ("tuple[()]", "Tuple[()]", "Tuple", "tuple[int]", "Tuple[int]", "List", "list[int]", "List[int]",
+                            "type[tuple[()]]", "type[Tuple]", "type[Tuple[()]]")]
 SMALL = [["cls", "K0"], ["cls", "K1"], ["cls", "K2"], ["cls", "K3"], ["cls", "K4"], ["cls", "int"], ["obj"],
          ["cls", "str"]]
 
@@ -96,7 +99,7 @@ def wild_order(n1, n2):
 
 def universe(depth):
     d1 = depth1()
-    u = ATOMS + d1 + WILD
+    u = ATOMS + d1 + WILD + RAW
     if depth >= 2:
         u = u + depth2(d1)
     seen, out = set(), []
@@ -125,6 +128,10 @@ def env():
             return (lo is typing.Any or value >= lo) and (hi is typing.Any or value <= hi)
 
         A = typing.Any
+        _ENV["__raw__"] = {"tuple[()]": tuple[()], "Tuple[()]": typing.Tuple[()], "Tuple": typing.Tuple,
+                           "tuple[int]": tuple[int], "Tuple[int]": typing.Tuple[int], "List": typing.List,
+                           "list[int]": list[int], "List[int]": typing.List[int], "type[tuple[()]]": type[tuple[()]],
+                           "type[Tuple]": type[typing.Tuple], "type[Tuple[()]]": type[typing.Tuple[()]]}
         _ENV["__custom__"] = {"Between[0,10]": Between[0, 10], "Between[0,Any]": Between[0, A],
                               "Between[Any,10]": Between[A, 10], "Between[Any,Any]": Between[A, A],
                               "Between[1,10]": Between[1, 10]}
@@ -133,6 +140,8 @@ def env():
 
 def build(t):
     """normalised ovld type for spec t (what an annotation becomes); raw for generics under type[...]"""
+    if t[0] == "raw":
+        return env()["__raw__"][t[1]]
     a = S.build_ann(t, env())
     if t[0] == "gen":
         return a  # a parametrised generic as it occurs under type[...] (not a value-dependent annotation)
@@ -207,6 +216,8 @@ def model_order(t1, t2):
             return Order.LESS
     if t1[0] in ("regexp", "startswith") and c2 is str:
         return Order.LESS
+    if t1[0] == "tup" and c2 is tuple:
+        return Order.LESS  # tuple[...] is below its origin / bound
     return None
 
 
